@@ -3,6 +3,7 @@ package main
 // Evaluation of contract expressions (Go expression syntax + built-ins) to SMT terms.
 
 import (
+	"os"
 	"fmt"
 	"go/ast"
 	"go/constant"
@@ -29,6 +30,8 @@ type Env struct {
 	reach  string
 	depth  int
 	sec    Heap // heap at the start of the current critical section (atsection(e))
+	quant  int  // nesting depth of quantifiers (bound variables in scope)
+	maxOrd int  // evaluation happens in the middle of block 'at': later bindings are invisible
 }
 
 var mathInt = types.Typ[types.Int]
@@ -232,7 +235,7 @@ func (env *Env) ident(name string) (Val, error) {
 		}
 	}
 	if env.fr != nil && env.at != nil {
-		if sv, isAddr, ok := env.fr.lookupName(name, env.at, env.atEnd); ok {
+		if sv, isAddr, ok := env.fr.lookupNameAt(name, env.at, env.atEnd, env.maxOrd); ok {
 			var v Val
 			if u, isUndef := sv.(undefinedHere); isUndef {
 				v = env.vc.freshVal("undef_"+name, u.Value.Type(), env.heap)
@@ -330,6 +333,13 @@ func (env *Env) fieldOf(base Val, name string) (Val, error) {
 	if cur.T == "" && cur.Loc != nil {
 		// struct-valued field reached through pointer: materialise value
 		cur = Val{T: vc.loadLoc(env.heap, cur.Loc), Typ: cur.Typ.Underlying().(*types.Pointer).Elem()}
+	}
+	if env.quant == 0 && cur.T != "" && cur.Loc == nil && os.Getenv("NOSF") == "" {
+		if _, isInt := intInfo(cur.Typ); isInt || isRefLike(cur.Typ) {
+			nv := vc.namedVal("sf_"+name, cur)
+			vc.setRng(nv.T, vc.wf(nv.T, cur.Typ, ""))
+			cur = nv
+		}
 	}
 	vc.attachPtrLoc(&cur)
 	if k, ok := intInfo(cur.Typ); ok && !k.signed {
@@ -715,6 +725,7 @@ func (env *Env) call(x *ast.CallExpr) (Val, error) {
 		vc.n++
 		bv := fmt.Sprintf("%s!q%d", id.Name, vc.n)
 		n := env.sub()
+		n.quant++
 		n.names[id.Name] = mathVal(bv)
 		var rng string = "true"
 		var bodyE ast.Expr
@@ -755,12 +766,13 @@ func (env *Env) call(x *ast.CallExpr) (Val, error) {
 		vc.n++
 		bv := fmt.Sprintf("%s!q%d", id.Name, vc.n)
 		n := env.sub()
+		n.quant++
 		n.names[id.Name] = Val{T: bv, Typ: types.NewPointer(t)}
 		body, err := n.evalBool(x.Args[2])
 		if err != nil {
 			return Val{}, err
 		}
-		return boolVal(fmt.Sprintf("(forall ((%s Int)) %s)", bv, sImp(sApp("<", "0", bv), body))), nil
+		return boolVal(fmt.Sprintf("(forall ((%s Int)) %s)", bv, vc.withPatterns(bv, sImp(sNot(sEq(bv, "0")), body)))), nil
 	case "len":
 		a, err := arg(0)
 		if err != nil {
@@ -1026,3 +1038,45 @@ func (env *Env) fieldOfIdx(base Val, t types.Type, i int) (Val, error) {
 }
 
 func vc0(env *Env) *VC { return env.vc }
+
+// explicit triggers for object quantifiers: every "(select M x)" on the bound variable is a pattern of its own
+func (vc *VC) withPatterns(bv, body string) string {
+	seen := map[string]bool{}
+	var pats []string
+	needle := " " + bv + ")"
+	idx := 0
+	for {
+		i := strings.Index(body[idx:], needle)
+		if i < 0 {
+			break
+		}
+		end := idx + i + len(needle)
+		// walk back to the matching "(select "
+		start := strings.LastIndex(body[:idx+i], "(select ")
+		if start >= 0 {
+			t := body[start:end]
+			// the map argument must be a single symbol
+			inner := strings.TrimSuffix(strings.TrimPrefix(t, "(select "), needle)
+			if !strings.ContainsAny(inner, " ()") && !seen[t] {
+				seen[t] = true
+				pats = append(pats, t)
+				// a map defined by a case split is expanded by the solver: the term is no legal pattern then
+				if d, ok := vc.defIdx[inner]; ok && strings.Contains(d.Body, "(ite ") {
+					return body
+				}
+			}
+		}
+		idx = end
+	}
+	if len(pats) == 0 || len(pats) > 40 {
+		return body
+	}
+	var b strings.Builder
+	b.WriteString("(! ")
+	b.WriteString(body)
+	for _, p := range pats {
+		b.WriteString(" :pattern (" + p + ")")
+	}
+	b.WriteString(")")
+	return b.String()
+}
